@@ -166,6 +166,7 @@ func init() {
 			items = append(items, layoutItems(tier, "C01", "issues-missing", "panic")...)
 			items = append(items, preprocItem("C01", "clean-despite-violation", "panic"))
 			items = append(items, Item{Name: "tests-sharing-a-code", MaxDevs: -1, Run: c01SharedCodeScenario})
+			items = append(items, Item{Name: "go-struct-inputs", MaxDevs: -1, Run: c01StructInputScenario})
 			items = append(items, Item{Name: "number-bound-chains", MaxDevs: -1, Run: c01NumberChainScenario})
 			items = append(items, Item{Name: "length-and-instant-bound-chains", MaxDevs: -1, Run: c01OtherChainScenario})
 			return append(items, Item{Name: "builtin-tests-on-long-values", MaxDevs: -1, Run: c01BuiltinLongScenario})
@@ -764,4 +765,83 @@ func c01SharedCodeScenario(x *mc.X) *mc.Outcome {
 type c01RulesSN struct {
 	S string
 	N int
+}
+
+// A Go struct value (or a pointer to one) is an input like a map: what its fields hold is what is parsed. One
+// execution = one record {Age Int.GT(0), On Bool.True, Ratio Float64.GTE(0.5), Name String.Min(2), When Time.After,
+// In: {Qty Int.GT(0)}, Rows: [{Qty}]} whose fields each hold their zero value, a failing value or a valid one,
+// given as a struct, as a pointer to the struct and as the equivalent map: the three results are the same
+// (C01 reports the struct forms that come back clean, or with fewer issues, than the map form).
+type c01InQty struct{ Qty int }
+
+type c01In struct {
+	Age   int
+	On    bool
+	Ratio float64
+	Name  string
+	When  time.Time
+	In    c01InQty
+	Rows  []c01InQty
+}
+
+func c01StructInputScenario(x *mc.X) *mc.Outcome {
+	zh.Reset()
+	zh.Install(x, zh.PoolLIFO, zh.OrderSorted)
+	t0 := time.Date(2020, 1, 1, 0, 0, 0, 0, time.UTC)
+	cls := func(label string) int { return x.Choose(3, label) } // 0 zero value, 1 failing non-zero, 2 valid
+	var in c01In
+	m := map[string]any{}
+	ca, co, cr, cn, cw, cq, crow := cls("Age"), cls("On"), cls("Ratio"), cls("Name"), cls("When"), cls("In.Qty"), cls("Rows[1].Qty")
+	in.Age = []int{0, -3, 30}[ca]
+	in.On = []bool{false, false, true}[co]
+	in.Ratio = []float64{0, 0.25, 0.75}[cr]
+	in.Name = []string{"", "x", "ann"}[cn]
+	in.When = []time.Time{{}, t0.Add(-time.Hour), t0.Add(time.Hour)}[cw]
+	in.In.Qty = []int{0, -1, 4}[cq]
+	in.Rows = []c01InQty{{Qty: 5}, {Qty: []int{0, -1, 4}[crow]}}
+	m["Age"], m["On"], m["Ratio"], m["Name"], m["When"] = in.Age, in.On, in.Ratio, in.Name, in.When
+	m["In"] = map[string]any{"Qty": in.In.Qty}
+	m["Rows"] = []any{map[string]any{"Qty": 5}, map[string]any{"Qty": in.Rows[1].Qty}}
+	mk := func() *z.StructSchema {
+		q := func() *z.StructSchema { return z.Struct(z.Schema{"Qty": z.Int().GT(0)}) }
+		return z.Struct(z.Schema{"Age": z.Int().GT(0), "On": z.Bool().True(), "Ratio": z.Float64().GTE(0.5), "Name": z.String().Min(2), "When": z.Time().After(t0), "In": q(), "Rows": z.Slice(q())})
+	}
+	run := func(data any) (iss []string, dest string, pmsg string) {
+		defer func() {
+			if r := recover(); r != nil {
+				pmsg = firstLine(fmt.Sprint(r))
+			}
+		}()
+		var d c01In
+		res := mk().Parse(data, &d)
+		for _, k := range sortedKeys(res) {
+			if k != "$first" {
+				for _, is := range res[k] {
+					iss = append(iss, k+"|"+is.Code)
+				}
+			}
+		}
+		return iss, fmt.Sprintf("%+v", d), ""
+	}
+	wi, wd, wp := run(m)
+	zh.Reset()
+	out := &mc.Outcome{Traces: 3, Nontrivial: len(wi) > 0, Sig: fmt.Sprintf("structin|%d%d%d%d%d%d%d", ca, co, cr, cn, cw, cq, crow)}
+	out.Sample = map[string]any{"classes(Age,On,Ratio,Name,When,In.Qty,Rows[1].Qty; 0 zero 1 failing 2 valid)": []int{ca, co, cr, cn, cw, cq, crow}, "issues_as_map": wi}
+	for _, form := range []struct {
+		name string
+		data any
+	}{{"struct value", in}, {"pointer to struct", &in}} {
+		gi, gd, gp := run(form.data)
+		zh.Reset()
+		if gp != wp || !eqStrings(gi, wi) || gd != wd {
+			key := "C01:struct-input:differs-from-map"
+			if len(gi) < len(wi) {
+				key = "C01:struct-input:clean-despite-violation"
+			}
+			x.Note("input given as %s; field classes (Age, On, Ratio, Name, When, In.Qty, Rows[1].Qty; 0 zero value, 1 failing, 2 valid): %v", form.name, []int{ca, co, cr, cn, cw, cq, crow})
+			out.Viol = append(out.Viol, &mc.Violation{Key: key, What: "a record given as a Go struct is not parsed like the same record given as a map", Expected: fmt.Sprintf("panic=%q issues=%v dest=%s", wp, wi, wd), Observed: fmt.Sprintf("panic=%q issues=%v dest=%s", gp, gi, gd)})
+			break
+		}
+	}
+	return out
 }
